@@ -54,10 +54,26 @@ format_hexstr = Fn(F, "format_hexstr", impl="util::BitVec", impl_header="BitVec"
     requires=[C("wf", "self.wf()"), C("len_fits", "self.len + 8 <= usize::MAX", ["C19"])],
     ensures=[C("four_bits_per_digit", "res@.len() == ceil_div(self.len as int, 4) && forall|k: int| 0 <= k < res@.len() ==> #[trigger] res@[k] == digit_char(acc(self.v(), 4 * k, 4))", ["C11"])])
 
+SAFE_REQ = [C("wf", "self.wf()"), C("len_fits", "self.len + 8 <= usize::MAX", ["C19"])]
+BYTE_LOOP = Loop(invariant=[C("bits", "n <= 8 && index as int == start + n && self.len + 8 <= usize::MAX && start < self.len && byte as int == acc(self.v(), start as int, n as int)")],
+                 body_start="                proof { lemma_acc_bound(self.v(), start as int, n as int); vstd::arithmetic::power2::lemma2_to64(); if n < 8 { vstd::arithmetic::power2::lemma_pow2_strictly_increases(n as nat, 8); } if n < 7 { vstd::arithmetic::power2::lemma_pow2_strictly_increases(n as nat, 7); } let ghost b0: u8 = if bit_of(self.v(), index as nat) { 1 } else { 0 }; lemma_shift_or(byte, b0); }")
+def safe_fmt(name, extra_req=()):
+    return Fn(F, name, impl="util::BitVec", impl_header="BitVec", slot="util", ret="res", key="BitVec::" + name, props=["C11", "C03", "C19"],
+        requires=SAFE_REQ + list(extra_req),
+        ensures=[C("terminates_without_panic", "true", ["C03", "C11"])],
+        rewrites=[R11],
+        loops={"while index < self.len()": Loop(invariant=[C("state", "self.wf() && self.len + 8 <= usize::MAX && index < self.len + 8" + (" && (radix == 10 || radix == 16)" if extra_req else ""))], decreases="self.len + 8 - index"),
+               "for n in 0..8": BYTE_LOOP},
+        inserts=[Insert("\t\t\tlet mut byte: u8 = 0;", "\t\t\tlet ghost start = index;\n", where="before")])
+
+format_mif = safe_fmt("format_mif")
+format_c_array = safe_fmt("format_c_array", [C("radix_supported", "radix == 10 || radix == 16", ["C03"])])
+format_separator = safe_fmt("format_separator", [C("radix_supported", "radix == 10 || radix == 16", ["C03"])])
+
 UNIT = Unit(
     "U-format", "u_format/skeleton.rs",
     items=cb.items("stub", "util", only=["set_bit", "get_bit"]) + bv.items("stub", "util", only=["read_bit", "len"]) + [
-        format_binary, format_str, format_binstr, format_hexstr,
+        format_binary, format_str, format_binstr, format_hexstr, format_mif, format_c_array, format_separator,
     ],
     serves=["C11", "C03", "C19"],
     description="util::BitVec formatters with a functional contract: raw binary, bit string, hex string",
